@@ -513,6 +513,100 @@ func propC20(w *World, r *Report, tier string) {
 			}
 		}
 	}
+	// ---- the same freshness facts, inter-procedurally (alloc_sem.go): where the per-method rules
+	// above do not find the lookup, the mark and the returned sum in the allocating method itself
+	// because they live in helper methods of the receiver, the tag analysis decides them in place
+	semOK := map[string]bool{}
+	for _, name := range []string{"Allocate", "Allocate_inRange"} {
+		if fn := get(name); fn != nil {
+			probs, _, _ := checkAllocFresh(w, fn)
+			semOK[name] = len(probs) == 0
+			if len(probs) > 0 {
+				r.Extra["alloc.sem/"+name] = probs
+			}
+		}
+	}
+	oldFailed := false
+	for _, f := range r.Findings {
+		if f.Rule == "alloc.fresh" || f.Rule == "alloc.map-writers" {
+			oldFailed = true
+		}
+	}
+	if !oldFailed {
+		// the per-method rules decide (they are the stronger statement: everything in the method itself)
+	} else if semOK["Allocate"] && semOK["Allocate_inRange"] {
+		// helpers that store into usedMap: unexported, and entered only from the allocating methods or from each other
+		helperOK := func(name string) bool {
+			if name == "Allocate" || name == "Allocate_inRange" || name == "init" || name == "FreeID" {
+				return false
+			}
+			fn := get(name)
+			if fn == nil || fn.Object() == nil || fn.Object().Exported() {
+				return false
+			}
+			for caller := range w.AllFuncs() {
+				if caller.Blocks == nil || caller.Pkg == nil || !IsRepoPkg(caller.Pkg.Pkg) {
+					continue
+				}
+				for _, b := range caller.Blocks {
+					for _, ins := range b.Instrs {
+						for _, op := range ins.Operands(nil) {
+							if f, ok := (*op).(*ssa.Function); ok && f == fn {
+								ci, isCall := ins.(ssa.CallInstruction)
+								if !isCall || ci.Common().StaticCallee() != fn {
+									return false // taken as a value
+								}
+								cn := caller.Name()
+								if caller.Signature.Recv() == nil || (cn != "Allocate" && cn != "Allocate_inRange" && !mapWriterHelper[cn]) {
+									if !(caller.Signature.Recv() != nil && offsetWriters[cn] && !caller.Object().Exported()) {
+										return false
+									}
+								}
+							}
+						}
+					}
+				}
+			}
+			return true
+		}
+		var keep []Finding
+		withdrawn := 0
+		for _, f := range r.Findings {
+			drop := false
+			switch f.Rule {
+			case "alloc.fresh":
+				drop = true
+			case "alloc.map-writers":
+				parts := strings.Split(f.Func, ".")
+				drop = helperOK(parts[len(parts)-1])
+			case "vacuity":
+				drop = strings.Contains(f.Key, "alloc.map-writers") || strings.Contains(f.Key, "alloc.fresh")
+			}
+			if drop {
+				withdrawn++
+				r.rule(f.Rule).Discharged++
+				continue
+			}
+			keep = append(keep, f)
+		}
+		if withdrawn > 0 {
+			r.Findings = keep
+			r.Note("alloc.fresh / alloc.map-writers: %d finding(s) of the per-method rules withdrawn — the lookup, the mark and the returned sum are in helper methods of the receiver; decided inter-procedurally (alloc_sem.go): every store usedMap[k]=x has k = the current offset, x = true and follows a lookup of that offset that found it free, and every successful return yields offset+minValue of the marked slot", withdrawn)
+		}
+	} else {
+		// the inter-procedural analysis found the discipline broken: say what it found
+		for _, name := range []string{"Allocate", "Allocate_inRange"} {
+			if probs, ok := r.Extra["alloc.sem/"+name].([]string); ok {
+				for _, p := range probs {
+					r.Site("alloc.fresh")
+					r.Fail("alloc.fresh", "uePolicyContainer.(*IDGenerator)."+name, "inter-procedural: "+p[strings.Index(p, ": ")+2:], token.NoPos, p, nil)
+				}
+			}
+		}
+	}
 	r.Expect("alloc.fresh", 2)
 	r.Expect("alloc.bounds", 5)
 }
+
+// mapWriterHelper: names of unexported helper methods accepted as callers of other helpers (none by default).
+var mapWriterHelper = map[string]bool{}
